@@ -1,6 +1,7 @@
 package main
 
 import (
+	"cosmossdk.io/collections"
 	"fmt"
 	"sort"
 	"strconv"
@@ -150,6 +151,49 @@ func (e *Env) tx(vb func() error, h func(ctx sdk.Context) error) Result {
 	return Result{"ok", ""}
 }
 
+// indepProbe (C19): the verdict on a bid or a modification in auction aid must not depend on what the signer has in
+// any OTHER auction.  The handler is executed on a discarded fork of the state from which the signer's bids and
+// allow-list entries of every other auction have been deleted; the caller compares its accept/reject class with the
+// real execution.  Returns probed=false when there is nothing to delete (or the signer string is not an address).
+func (e *Env) indepProbe(who string, aid uint64, vb func() error, h func(ctx sdk.Context) error) (string, bool) {
+	addr, err := sdk.AccAddressFromBech32(who)
+	if err != nil {
+		return "", false
+	}
+	fork, _ := e.ctx.CacheContext()
+	var bidKeys []collections.Pair[uint64, uint64]
+	_ = e.k.Bid.Walk(fork, nil, func(key collections.Pair[uint64, uint64], b types.Bid) (bool, error) {
+		if key.K1() != aid {
+			if a2, err := sdk.AccAddressFromBech32(b.Bidder); err == nil && a2.Equals(addr) {
+				bidKeys = append(bidKeys, key)
+			}
+		}
+		return false, nil
+	})
+	var alKeys []collections.Pair[uint64, sdk.AccAddress]
+	_ = e.k.AllowedBidder.Walk(fork, nil, func(key collections.Pair[uint64, sdk.AccAddress], ab types.AllowedBidder) (bool, error) {
+		if key.K1() != aid && key.K2().Equals(addr) {
+			alKeys = append(alKeys, key)
+		}
+		return false, nil
+	})
+	if len(bidKeys)+len(alKeys) == 0 {
+		return "", false
+	}
+	for _, k := range bidKeys {
+		_ = e.k.Bid.Remove(fork, k)
+	}
+	for _, k := range alKeys {
+		_ = e.k.AllowedBidder.Remove(fork, k)
+	}
+	nx, nt, bc, saved := len(e.xfers), len(e.trace), e.bankCall, e.ctx
+	e.ctx = fork
+	r := e.tx(vb, h)
+	e.ctx = saved
+	e.xfers, e.trace, e.bankCall = e.xfers[:nx], e.trace[:nt], bc
+	return r.Class, true
+}
+
 // sweepOrders: what types.BidsByPrice yields for every batch auction that is due at time t
 func (e *Env) sweepOrders(t time.Time) []string {
 	var out []string
@@ -193,10 +237,20 @@ func (e *Env) Exec(o Op) (pre []string, res Result, post []string) {
 		res = e.tx(m.ValidateBasic, func(c sdk.Context) error { _, err := e.ms.CancelAuction(c, m); return err })
 	case "BID":
 		m := &types.MsgPlaceBid{Bidder: e.whoStr(f["who"]), AuctionId: pU64(f["a"]), BidType: types.BidType(pU64(f["bt"])), Price: pDec(f["price"]), Coin: pCoin(f["coin"])}
-		res = e.tx(m.ValidateBasic, func(c sdk.Context) error { _, err := e.ms.PlaceBid(c, m); return err })
+		h := func(c sdk.Context) error { _, err := e.ms.PlaceBid(c, m); return err }
+		alt, probed := e.indepProbe(m.Bidder, m.AuctionId, m.ValidateBasic, h)
+		res = e.tx(m.ValidateBasic, h)
+		if probed {
+			post = append(post, fmt.Sprintf("INDEP same=%d alt=%s", b2i(alt == res.Class), alt))
+		}
 	case "MOD":
 		m := &types.MsgModifyBid{Bidder: e.whoStr(f["who"]), AuctionId: pU64(f["a"]), BidId: pU64(f["b"]), Price: pDec(f["price"]), Coin: pCoin(f["coin"])}
-		res = e.tx(m.ValidateBasic, func(c sdk.Context) error { _, err := e.ms.ModifyBid(c, m); return err })
+		h := func(c sdk.Context) error { _, err := e.ms.ModifyBid(c, m); return err }
+		alt, probed := e.indepProbe(m.Bidder, m.AuctionId, m.ValidateBasic, h)
+		res = e.tx(m.ValidateBasic, h)
+		if probed {
+			post = append(post, fmt.Sprintf("INDEP same=%d alt=%s", b2i(alt == res.Class), alt))
+		}
 	case "ADDMSG":
 		m := &types.MsgAddAllowedBidder{AuctionId: pU64(f["a"]), AllowedBidder: types.AllowedBidder{AuctionId: pU64(f["ea"]), Bidder: e.whoStr(f["who"]), MaxBidAmount: pInt(f["max"])}}
 		res = e.tx(m.ValidateBasic, func(c sdk.Context) error { _, err := e.ms.AddAllowedBidder(c, m); return err })
